@@ -96,6 +96,7 @@ def register(reg):
                 list(CIG_INV_IN.items()) + [("pairs", "0 <= it2 <= npairs(it1 - 1)")]),
                 hints=["same(mapping, rec(it1 - 1)) and same(all_cigars, runs(it1 - 1))"]),
         },
+        assert_at={"after:for cnt in range(0, len(all_cigars) - 1, 2)": {"all-pairs-counted": "it2 == npairs(it1 - 1)"}},
         ghost_at={
             "after:reads[mapping.query_name] = Read(": "firstk[mapping.query_name] = it1 - 1\nargmr[mapping.query_name] = it1 - 1\nargsi[mapping.query_name] = it1 - 1",
             "after:reads[mapping.query_name].highest_map_ratio = map_ratio": "argmr[mapping.query_name] = it1 - 1",
